@@ -511,6 +511,31 @@ func findSwallows(p *Prog, pk *packages.Package) []swallowSite {
 						}
 					}
 				}
+				// an early-exit guard before the return, in the same block or an enclosing one inside the error branch,
+				// classifies the error just as well: `if !os.IsNotExist(err) { return nil, err }; return nil, nil`
+				for cur := ast.Node(r); cur != nil && cur != ifs && !s.Classified; cur = p.Parent(cur) {
+					blk, ok := p.Parent(cur).(*ast.BlockStmt)
+					if !ok {
+						continue
+					}
+					for _, st := range blk.List {
+						if st == cur {
+							break
+						}
+						g, ok := st.(*ast.IfStmt)
+						if !ok || !(usesObj(info, g.Cond, obj) || (g.Init != nil && usesObj(info, g.Init, obj))) || len(g.Body.List) == 0 {
+							continue
+						}
+						switch last := g.Body.List[len(g.Body.List)-1].(type) {
+						case *ast.ReturnStmt:
+							s.Classified = true
+						case *ast.BranchStmt:
+							if last.Tok == token.CONTINUE || last.Tok == token.BREAK {
+								s.Classified = true
+							}
+						}
+					}
+				}
 				out = append(out, s)
 				return true
 			})
